@@ -2687,7 +2687,10 @@ def classify(case, verdict):
     """known findings (KNOWN_FINDINGS.txt): genuine violations that are recorded, not repaired"""
     why = (verdict or {}).get('why', '')
     if case.get('mode') == 'shared' and case['spec'][0] == 'accum' and case['spec'][1].get('pos') == 'vars' \
-            and ('shared argument' in why or "differs from its outcome alone" in why):
+            and ('shared argument' in why or "differs from its outcome alone" in why
+                 or 'the spec object the calls share is not what it was' in why):
+        # (the last one: both calls push the SAME item into a dict / set default -- e.g. the same target twice -- so
+        # every read equals the read alone, and the persisting default shows only in the spec object itself)
         return 'vars_mutable_default_persists'
     if case.get('mode') == 'repr' and case['repr'].get('on') == 'self':
         outs = (case.get('impl') or {}).get('outs') or []
